@@ -136,7 +136,47 @@ def morph(kind, fmt, b_from, b_to, vals, style):
     return obj
 
 
-def evaluate(vec, r, props, style=0, morph_from=None, huge=False, chan_zero=None):
+def exotic_sizes(vec, r, style=0):
+    """C02 only, on blocks whose samples are +-inf / isolated NaN components: reported size = bytes
+    written = bytes consumed by the decoder, for the block and for each of its items"""
+    import io
+    from .values import ExoticValues
+    kind, fmt, b = vec["kind"], vec["fmt"], vec["b"]
+    out = []
+    try:
+        obj = ab.gamma(kind, fmt, b, ExoticValues(r), style)
+    except Exception:  # noqa: BLE001
+        return out          # refusing such samples outright is the library's right
+    try:
+        if style % 2 == 0:
+            obj.nBytes
+        enc = ab.encode(obj)
+    except Exception:  # noqa: BLE001
+        return out
+    if obj.nBytes != len(enc):
+        out.append(("C02:nbytes_ne_written", f"nBytes {obj.nBytes} written {len(enc)}"))
+    for it in ab.items_of(kind, obj):
+        s = io.BytesIO()
+        try:
+            it._write(s, obj.format) if kind == "ForcePlatformsData" else it._write(s)
+            if it.nBytes != len(s.getvalue()):
+                out.append(("C02:item_nbytes", f"{type(it).__name__} nBytes {it.nBytes} written {len(s.getvalue())}"))
+        except Exception as x:  # noqa: BLE001
+            out.append(("C02:item_nbytes", f"{type(x).__name__}: {x}"))
+    try:
+        dec, pos = ab.decode(kind, fmt, enc, b"\xAA\x55" * 9)
+        if pos != len(enc):
+            out.append(("C02:consumed", f"decoder stopped at {pos}, block has {len(enc)} bytes"))
+        if dec.nBytes != len(enc):
+            out.append(("C02:decoded_nbytes", f"{dec.nBytes} vs {len(enc)}"))
+    except Exception as x:  # noqa: BLE001
+        out.append(("C02:decode_failed", f"{type(x).__name__}: {x}"))
+    return out
+
+
+def evaluate(vec, r, props, style=0, morph_from=None, huge=False, chan_zero=None, exotic=False):
+    if exotic:
+        return exotic_sizes(vec, r, style) if "C02" in props else []
     """-> list of (clause, detail) for the properties asked for"""
     kind, fmt, b, toks = vec["kind"], vec["fmt"], vec["b"], vec["toks"]
     out = []
@@ -520,7 +560,7 @@ def check(prop, tier, seed, replay=None):
             else:
                 bad = [(c, d) for c, d, _ in bigdata.header_campaign({prop}, seed)[0]]
         else:
-            bad = evaluate(rp["vector"], rp["r"], {prop}, rp.get("style", 0), morph_from=rp.get("morph_from"),
+            bad = evaluate(rp["vector"], rp["r"], {prop}, rp.get("style", 0), exotic=rp.get("exotic", False), morph_from=rp.get("morph_from"),
                            huge=rp.get("huge", False), chan_zero=rp.get("chan_zero"))
         run.cov["evaluations"] = 1
         run.cov["distinct_nontrivial"] = 2
@@ -548,7 +588,7 @@ def check(prop, tier, seed, replay=None):
         for r in rs:
             n_eval += 1
             try:
-                bad = evaluate(vec, r, {prop}, style=(vi + r) % 6)
+                bad = evaluate(vec, r, {prop}, style=(vi + r) % 12)
             except Exception as x:  # noqa: BLE001  (library code raising where the unchanged library does not)
                 import traceback
                 where = traceback.extract_tb(x.__traceback__)[-1]
@@ -557,31 +597,39 @@ def check(prop, tier, seed, replay=None):
             if mine and len(run.violations) < 5:
                 clause, detail = mine[0]
                 run.violation(f"{clause} on {vec['kind']} format {vec['fmt']}: {detail}",
-                              dict(kind="codec", vector=vec, r=r, style=(vi + r) % 6, clauses=mine))
+                              dict(kind="codec", vector=vec, r=r, style=(vi + r) % 12, clauses=mine))
         if not mutants and any(t.get("p") in ("i16", "u16", "u15") for t in vec["toks"]):
             # channel / camera number 0 at the first, second, ... position of the map
             nchan = sum(1 for t in vec["toks"] if t.get("p") in ("i16", "u16", "u15"))
             k = (vi + seed) % nchan
             n_eval += 1
             try:
-                bad = evaluate(vec, rs[0], {prop}, style=vi % 6, chan_zero=k)
+                bad = evaluate(vec, rs[0], {prop}, style=vi % 12, chan_zero=k)
             except Exception as x:  # noqa: BLE001
                 bad = [(f"{prop}:library_raised", f"{type(x).__name__}: {x} (channel 0)")]
             mine = [c for c in bad if c[0].startswith(prop + ":")]
             if mine:
                 run.violation(f"{mine[0][0]} on {vec['kind']} format {vec['fmt']} with channel number 0 at position {k}: {mine[0][1]}",
-                              dict(kind="codec", vector=vec, r=rs[0], style=vi % 6, chan_zero=k, clauses=mine))
+                              dict(kind="codec", vector=vec, r=rs[0], style=vi % 12, chan_zero=k, clauses=mine))
         if vec["kind"] in RLE_KINDS and not mutants and vi % 3 == seed % 3:
             # every sample near the top of the float range: sums of two samples overflow
             n_eval += 1
             try:
-                bad = evaluate(vec, rs[0], {prop}, style=vi % 6, huge=True)
+                bad = evaluate(vec, rs[0], {prop}, style=vi % 12, huge=True)
             except Exception as x:  # noqa: BLE001
                 bad = [(f"{prop}:library_raised", f"{type(x).__name__}: {x} (huge samples)")]
             mine = [c for c in bad if c[0].startswith(prop + ":")]
             if mine:
                 run.violation(f"{mine[0][0]} on {vec['kind']} format {vec['fmt']} with samples near the top of the float32 range: {mine[0][1]}",
-                              dict(kind="codec", vector=vec, r=rs[0], style=vi % 6, huge=True, clauses=mine))
+                              dict(kind="codec", vector=vec, r=rs[0], style=vi % 12, huge=True, clauses=mine))
+        if prop == "C02" and vec["kind"] in RLE_KINDS and not mutants:
+            # samples that are not ordinary numbers (+-inf, one component NaN): sizes only
+            for r in rs[:2]:
+                n_eval += 1
+                bad = evaluate(vec, r, {prop}, style=(vi + r) % 12, exotic=True)
+                if bad:
+                    run.violation(f"{bad[0][0]} on {vec['kind']} format {vec['fmt']} with infinite / partly missing samples: {bad[0][1]}",
+                                  dict(kind="codec", vector=vec, r=r, style=(vi + r) % 12, exotic=True, clauses=bad))
         if vi % 200 == 0:
             run.sample(dict(kind=vec["kind"], fmt=vec["fmt"], b=vec["b"], size=vec["size"], n_tokens=len(vec["toks"]),
                             n_mutants=len(vec.get("mutants", []))))
@@ -604,14 +652,14 @@ def check(prop, tier, seed, replay=None):
                 continue
             n_morph += 1
             try:
-                bad = evaluate(dict(vec, mutants=[]), rs[0], {prop}, style=i % 6, morph_from=src["b"])
+                bad = evaluate(dict(vec, mutants=[]), rs[0], {prop}, style=i % 12, morph_from=src["b"])
             except Exception as x:  # noqa: BLE001
                 bad = [(f"{prop}:library_raised", f"{type(x).__name__}: {x} (after in-place edit)")]
             mine = [c for c in bad if c[0].startswith(prop + ":")]
             if mine and len(run.violations) < 5:
                 clause, detail = mine[0]
                 run.violation(f"{clause} on {vec['kind']} format {vec['fmt']} after editing a block in place: {detail}",
-                              dict(kind="codec", vector=vec, morph_from=src["b"], r=rs[0], style=i % 6, clauses=mine))
+                              dict(kind="codec", vector=vec, morph_from=src["b"], r=rs[0], style=i % 12, clauses=mine))
     n_eval += n_morph
     run.cov["in_place_edit_vectors"] = n_morph
     n_eval += real_sized(run, prop, tier, seed, vecs)
